@@ -64,6 +64,7 @@ class C01(Prop):
             g.before = i % 7 == 5  # another function in front of @f: every function is optimised as if it were alone
             g.callee = i % 7 == 3
             g.statearg = i % 11 == 7
+            g.opaque = 0.6 if i % 9 == 4 else 0.0
             if i % 7 == 1:
                 g.readcall = 0.3  # calls that return a value (impure inputs of setups): oracle only
             yield {"kind": "dedup", "src": g.program(), "xseed": rng.getrandbits(32)}
